@@ -9,6 +9,14 @@ func init() {
 	registerRule("R14", ruleR14)
 	registerRule("R34", ruleR34)
 	registerRule("R12", ruleR12)
+	registerRule("R35", ruleR35)
+	registerRule("R08", ruleR08)
+	registerRule("R16", func(c *Ctx) { c.run("R08") })
+	registerRule("R18", func(c *Ctx) { c.run("R08") })
+	registerRule("R11", ruleR11)
+	registerRule("R13", ruleR13)
+	registerRule("R09", ruleR09R19)
+	registerRule("R19", func(c *Ctx) { c.run("R09") })
 	registerRule("R06", ruleR06R07)
 	registerRule("R07", func(c *Ctx) { c.run("R06") })
 	registerRule("R10", ruleR10)
@@ -33,4 +41,32 @@ func init() {
 		Explain: "Translation validation of the generated file: the checker extracts the instantiation table from the AST of cmd/go-art/main.go (constants only), executes cmd/go-art/tree.tmpl with it, formats the result with go/format and compares it byte for byte with trees.go, one comparison per instantiation plus the header; it also checks the go:generate directives and that trees.go is gofmt-stable.",
 		NotDecided: "Nothing value-level remains: the property is a textual equality. Trusted: text/template and go/format of the Go release the checker is built with (assumed to agree with the release used to regenerate).",
 		Technique:  "static translation validation: re-render the code-generation template from the generator's AST and diff against the checked-in file", DesignRef: "§4 C19 R34"})
+	registerProp(&propSpec{ID: "C02", Level: "other", DesignRef: "§4 C02",
+		Rules: []string{"R09", "R08", "R10", "R12", "R06", "R11", "R35"},
+		Explain: "Structural clauses of complete/duplicate-free/sorted iteration: R09 every traversal arm (all, backward, filter, rangeScan, minimum, maximum, the inlined lookups of Search) reads the children of each node kind through the same slot domain, occupancy test and child expression as the canonical byte→child lookup (findChild), forward traversals push in descending and backward in ascending slot order (mirror); R08 keys are restored by undoing exactly the normalisation applied at insertion; R10 constant-range indexes fit their arrays; R12 worklists are seeded only with a non-nil root; R06 popped references are cast under their tag; R11 no loop-carried key position.",
+		NotDecided: "That children inside a 4/16-slot node are kept in ascending byte order (insertPosNode4/16: SWAR/SIMD arithmetic) and that the key encodings are monotone (C07's value-level part)."})
+	registerProp(&propSpec{ID: "C03", Level: "other", DesignRef: "§4 C03",
+		Rules: []string{"R12", "R11", "R13", "R09", "R01", "R08", "R06"},
+		Explain: "Range: R12 the scan and the open-end bound are guarded against an empty tree (nil root, nil maximum); R11 the key depth is carried per stack entry, not per scan; R13 every yield is dominated by both leaf-level bound comparisons with the right argument roles, a key below the lower bound is skipped rather than ending the scan, callers normalise reversed bounds by a swap, the equal-bounds sequence yields only under a successful Search; R09 the scan enumerates children like the other traversals; R01 slicing of the bounds' common prefix is guarded; R08 the bounds get the same key normalisation as stored keys.",
+		NotDecided: "That the common-prefix pruning (skip a subtree whose compressed path mismatches the bounds' common prefix) never removes a subtree intersecting the range – a value-level argument about byte positions."})
+	registerProp(&propSpec{ID: "C04", Level: "other", DesignRef: "§4 C04",
+		Rules: []string{"R13", "R11", "R10", "R06", "R09", "R01", "R12"},
+		Explain: "Prefix: R13 every yield of the filtering scan is dominated by the predicate, which calls bytes.HasPrefix(stored key, requested prefix) in that argument order – so nothing that does not start with p is yielded; the subtree selector is a single-path descent (no worklist: R11), indexes the prefix only under a length guard (R01), never reads a leaf as an inner node (R06) and is only entered with a non-nil root (R12); R09/R10 the scan enumerates every child of every node kind with in-range indexes.",
+		NotDecided: "That the selector's byte-position arithmetic (prefixMismatch against compressed paths longer than the inline limit) returns a subtree containing every matching key."})
+	registerProp(&propSpec{ID: "C05", Level: "other", DesignRef: "§4 C05",
+		Rules: []string{"R09", "R12", "R35", "R27", "R06"},
+		Explain: "R09 minimum/maximum pick the first/last occupied slot of the same slot domain, with the same occupancy test and child expression, that the traversals enumerate (8 arms); R12 Minimum/Maximum report 'none' exactly on a nil result; R27/R28 TopK/BottomK count per pass and stop after yield returned false, ranging over Backward/All respectively (call-target check); R06 casts under tag facts.",
+		NotDecided: "Nothing beyond C02's value-level remainder (sortedness inside 4/16-slot nodes)."})
+	registerProp(&propSpec{ID: "C08", Level: "other", DesignRef: "§4 C08",
+		Rules: []string{"R16", "R08", "R01", "R02", "R03", "R04", "R05", "R06", "R09", "R12"},
+		Explain: "collation.go is analysed as the sixth copy of the tree algorithm by every kind-generic rule (R01 guarded key indexes, R02 equality on the ORIGINAL string – not the sort key – dominates every success, R03/R04 link/size automaton, R06 tag casts, R09 inlined lookups, R12 nil flows), plus R16: the leaf pairs (key,keyLen) with the original bytes and (colKey,colKeyLen) with the sort key, descent uses only the sort key, restoreKey returns the original, WithCollator stores into the field that sort-key generation reads; R08 one normalisation per role at all entry points.",
+		NotDecided: "That x/text sort keys order like Collator.Compare and are prefix-free (library contract, recorded as assumption)."})
+	registerProp(&propSpec{ID: "C09", Level: "other", DesignRef: "§4 C09",
+		Rules: []string{"R18", "R08", "R01", "R02", "R03", "R04", "R05", "R06", "R12", "R13"},
+		Explain: "The compound instantiation is analysed by all kind-generic rules; R18/R08: the constructor stores the caller's codec in the field every method reads, every key→bytes conversion is bck.Transform with the SAME result index at Insert, Search, Delete and both Range bounds, stored bytes are decoded with bck.Restore.",
+		NotDecided: "Everything that depends on what the user's codec computes (injectivity, order, prefix-freedom are the property's premise and are recorded as assumptions)."})
+	registerProp(&propSpec{ID: "C14", Level: "other", DesignRef: "§4 C14",
+		Rules: []string{"R27", "R28"},
+		Explain: "R27 no sequence closure assigns, increments or takes the address of a variable declared outside it, so a second pass starts from the same captured values; R28 every yield call decides a branch whose false outcome reaches the function exit with no further yield call reachable (go/cfg reachability), and no yield is deferred. 12 closures, all yield sites.",
+		NotDecided: "Nothing value-level: with the tree unchanged, the yielded elements are those of C02–C05."})
 }
